@@ -55,10 +55,19 @@ func runC11(c *Ctx) {
 			var lv []ssa.Value
 			leaves(rt.Results[0], map[ssa.Value]bool{}, &lv)
 			for _, l := range lv {
-				if _, ok := l.(*ssa.Alloc); !ok {
-					okAll = false
-					c.bad("R11.1", construct, c.ipos(rt), "the error constructor can return something other than a freshly built error object (e.g. nil when a codec fails): the caller would see success")
+				if _, ok := l.(*ssa.Alloc); ok {
+					continue
 				}
+				// built by a helper of the constructor (codecError(codec, fallback)): every origin is an object
+				// allocated in the constructor's cone
+				if c.allOrigins(l, func(a apath) bool {
+					al, ok := a.Root.(*ssa.Alloc)
+					return ok && len(a.Fields) == 0 && p.inCone(mkErr, al)
+				}) {
+					continue
+				}
+				okAll = false
+				c.bad("R11.1", construct, c.ipos(rt), "the error constructor can return something other than a freshly built error object (e.g. nil when a codec fails): the caller would see success")
 			}
 		})
 		if okAll {
@@ -78,8 +87,26 @@ func runC11(c *Ctx) {
 			}
 			nlk++
 			cons := fmt.Sprintf("%s: code lookup by error type", fname(mkErr))
-			call, ok := lk.Index.(*ssa.Call)
-			good := ok && calleeName(call) == "reflect.TypeOf" && c.isParamOrForwarded(stripConv(call.Common().Args[0]), errParam)
+			isTypeOfErr := func(v ssa.Value) bool {
+				call, ok := v.(*ssa.Call)
+				if !ok || calleeName(call) != "reflect.TypeOf" {
+					return false
+				}
+				arg := stripConv(call.Common().Args[0])
+				if c.isParamOrForwarded(arg, errParam) {
+					return true
+				}
+				// through a helper of the constructor (errorCode(err)): the helper's error parameter is the constructor's
+				return c.allOrigins(arg, func(a apath) bool { return len(a.Fields) == 0 && a.Root == ssa.Value(errParam) })
+			}
+			good := isTypeOfErr(lk.Index)
+			if !good {
+				// the key handed to a lookup helper (codeFor(reflect.TypeOf(err)))
+				good = c.allOrigins(lk.Index, func(a apath) bool {
+					v, ok := a.Root.(ssa.Value)
+					return ok && len(a.Fields) == 0 && isTypeOfErr(v)
+				})
+			}
 			c.check(good, "R11.3", cons, c.ipos(lk), "keyed by reflect.TypeOf(the handler's error)",
 				"the code is looked up under the type of something other than the error the handler returned (e.g. an unwrapped cause): an unregistered wrapper is sent with a registered code and loses its message")
 		})
